@@ -650,6 +650,8 @@ func ctxHistories(thorough bool) []ctxHist {
 			}
 		}
 		rec("")
+		// long runs: the shape of a store's offsets changes as its log grows
+		l = append(l, ctxHist{m, "bbbbbbbbbbbb"}, ctxHist{m, "bbobbbbbbdbbo"})
 	}
 	return l
 }
@@ -748,6 +750,11 @@ func runCtxHistBody(ch ctxHist) (out []string) {
 type cinst struct {
 	n, per int
 	async  bool
+	// failer: one more task publishes a value that has no JSON encoding; the persistence
+	// error handler has a scheduling point (1) and publishes an event of its own, #99 (2):
+	// every other publish - also one made while the error handler runs, also the error
+	// handler's own - is recorded once, before it is delivered
+	failer int
 	rec    h.Rec
 	st     string
 	offs   []string
@@ -756,7 +763,14 @@ type cinst struct {
 
 func (ci *cinst) Body() {
 	ms := eventbus.NewMemoryStore()
-	bus := eventbus.New(eventbus.WithStore(ms))
+	var bus *eventbus.EventBus
+	bus = eventbus.New(eventbus.WithStore(ms), eventbus.WithPersistenceErrorHandler(func(ev any, t reflect.Type, err error) {
+		ci.rec.Add("perr", 0, 0, "")
+		vrt.Point()
+		if ci.failer == 2 {
+			eventbus.Publish(bus, EvA{ID: 99})
+		}
+	}))
 	seen := func(e EvA) {
 		evs, _, _ := ms.Read(context.Background(), eventbus.OffsetOldest, 0)
 		found := 0
@@ -781,6 +795,9 @@ func (ci *cinst) Body() {
 			}
 		})
 	}
+	if ci.failer > 0 {
+		vrt.Go(func() { eventbus.Publish(bus, Env{ID: 7, Payload: make(chan int)}) })
+	}
 	vrt.Join()
 	bus.Wait()
 	evs, _, _ := ms.Read(context.Background(), eventbus.OffsetOldest, 0)
@@ -798,6 +815,9 @@ func (ci *cinst) Outcome() string { return ci.st + " " + fmt.Sprint(ci.types) }
 func (ci *cinst) Check(res *vrt.Result) []vrt.Violation {
 	ci.st = res.Status.String()
 	name := fmt.Sprintf("concurrent publishers %dx%d async=%v", ci.n, ci.per, ci.async)
+	if ci.failer > 0 {
+		name += []string{"", " + a publisher of an unencodable value", " + a publisher of an unencodable value whose error handler publishes"}[ci.failer]
+	}
 	vs := vrt.StatusViolations(name, res)
 	if res.Status != vrt.StatusOK {
 		return vs
@@ -805,8 +825,18 @@ func (ci *cinst) Check(res *vrt.Result) []vrt.Violation {
 	bad := func(sig string) {
 		vs = append(vs, vrt.Violation{Kind: "concurrent-persist", Sig: name + ": " + sig, Detail: ci.Trace()})
 	}
-	if len(ci.offs) != ci.n*ci.per {
-		bad(fmt.Sprintf("%d publishes produced %d records", ci.n*ci.per, len(ci.offs)))
+	wantRecs := ci.n * ci.per
+	if ci.failer == 2 {
+		wantRecs++
+		if ids := strings.Count(fmt.Sprint(ci.types), ":99"); ids != 1 {
+			bad(fmt.Sprintf("the event published by the persistence error handler is recorded %d times", ids))
+		}
+	}
+	if len(ci.offs) != wantRecs {
+		bad(fmt.Sprintf("%d encodable publishes produced %d records", wantRecs, len(ci.offs)))
+	}
+	if ci.failer > 0 && h.Count(ci.rec.Events(), "perr", 0, 0) != 1 {
+		bad("the persistence error handler was not called exactly once for the one unencodable publish")
 	}
 	for i := 1; i < len(ci.offs); i++ {
 		if !(ci.offs[i-1] < ci.offs[i]) {
@@ -851,6 +881,12 @@ func schedScenarios(thorough bool) []vrt.Scenario {
 	for _, s := range shapes {
 		s := s
 		l = append(l, vrt.Scenario{Name: fmt.Sprintf("publishers-%dx%d-async%d", s[0], s[1], s[2]), New: func() vrt.Instance { return &cinst{n: s[0], per: s[1], async: s[2] == 1} }})
+	}
+	for _, f := range []int{1, 2} {
+		for _, s := range [][3]int{{1, 1, 0}, {1, 2, 0}, {2, 1, 0}, {1, 1, 1}} {
+			s, f := s, f
+			l = append(l, vrt.Scenario{Name: fmt.Sprintf("publishers-%dx%d-async%d-failer%d", s[0], s[1], s[2], f), New: func() vrt.Instance { return &cinst{n: s[0], per: s[1], async: s[2] == 1, failer: f} }})
+		}
 	}
 	return l
 }
@@ -923,6 +959,17 @@ func run(c *h.Check) {
 			c.Violate("durable", m, m, map[string]any{"durable": true})
 		}
 	}
+	for i, lr := range longRuns() {
+		if !c.Mine(i + 1) {
+			continue
+		}
+		c.Count("evaluations", 1)
+		c.Count("nontrivial", 1)
+		c.Count("long_runs", 1)
+		for _, m := range runLongRun(lr) {
+			c.Violate("long-run", stripDigitsAll(m), m, map[string]any{"longrun": lr})
+		}
+	}
 	bound := 3
 	if c.Thorough() {
 		bound = 4
@@ -941,6 +988,24 @@ func stripAfter(s string) string {
 		return s[:i]
 	}
 	return s
+}
+
+// stripDigitsAll replaces every run of digits (positions, counts) for a signature.
+func stripDigitsAll(s string) string {
+	var b strings.Builder
+	in := false
+	for _, r := range s {
+		if r >= '0' && r <= '9' {
+			if !in {
+				b.WriteByte('N')
+			}
+			in = true
+			continue
+		}
+		in = false
+		b.WriteRune(r)
+	}
+	return b.String()
 }
 
 func stripNum(s string) string {
@@ -970,6 +1035,7 @@ func replay(c *h.Check, rf *h.ReplayFile) []vrt.Violation {
 		Sequence bool     `json:"sequence"`
 		Durable  bool     `json:"durable"`
 		CtxHist  *ctxHist `json:"ctxhist"`
+		LongRun  *longRun `json:"longrun"`
 	}
 	json.Unmarshal(rf.Ops, &ops)
 	if ops.Sequence {
@@ -980,6 +1046,11 @@ func replay(c *h.Check, rf *h.ReplayFile) []vrt.Violation {
 	if ops.Durable {
 		for _, m := range durableCases() {
 			vs = append(vs, vrt.Violation{Kind: "durable", Sig: m, Detail: m})
+		}
+	}
+	if ops.LongRun != nil {
+		for _, m := range runLongRun(*ops.LongRun) {
+			vs = append(vs, vrt.Violation{Kind: "long-run", Sig: stripDigitsAll(m), Detail: m})
 		}
 	}
 	if ops.CtxHist != nil {
